@@ -138,7 +138,6 @@ pub broadcast group reply_lemmas { xml_log_lemmas, lemma_errors_of_push, lemma_a
 
 // ---------- shims: crate-level types ----------
 pub struct BoxErr;
-pub struct ParseIntError;
 impl From<ParseIntError> for BoxErr { #[verifier::external_body] fn from(e: ParseIntError) -> (r: BoxErr) { unimplemented!() } }
 pub enum ReadError { UnexpectedXmlEvent(Event), MissingElement, Other(BoxErr) }
 impl ReadError {
@@ -342,17 +341,6 @@ use crate::rpc;
 use crate::rpc::Errors;
 broadcast use reply_lemmas;
 
-// reader.read_text(end): the text content of a leaf element (ASSUMED: consumes events, records one TextOf item)
-pub struct CowStr { pub v: Vec<u8> }
-impl NsReader {
-    #[verifier::external_body]
-    pub fn read_text(&mut self, end: QName) -> (r: Result<CowStr, XmlError>)
-        ensures
-            final(self).remaining@.len() <= old(self).remaining@.len(),
-            r is Ok ==> final(self).log@ == old(self).log@.push(Item::TextOf(r->Ok_0.v@)),
-            r is Err ==> is_prefix(old(self).log@, final(self).log@),
-    { unimplemented!() }
-}
 impl CowStr {
     // str::parse::<usize>()
     #[verifier::external_body]
